@@ -108,14 +108,23 @@ theorem setRecipient_inv {σ σ' : Store α} {i : Nat} {s : Option String} (fuel
 def OwnOrDetached (σ : Store α) (p : Nat) (cs : List Nat) : Prop :=
   ∃ rp, σ[p]? = some rp ∧ rp.view = false ∧ ∀ c ∈ cs, c ∈ rp.kids ∨ Detached σ p c
 
-theorem setChildren_pre {σ σ' : Store α} {p : Nat} {cs : List Nat} (fuel : Nat) (hp : Pre Hc σ p)
-    (hd : OwnOrDetached σ p cs) (h : setChildren fuel σ p cs = .ok σ') : Inv Hc σ' := by
+/-- every element of `cs` is one of `p`'s own children or attachable (`Loose`) -/
+def OwnOrLoose (σ : Store α) (p : Nat) (cs : List Nat) : Prop :=
+  ∃ rp, σ[p]? = some rp ∧ rp.view = false ∧ ∀ c ∈ cs, c ∈ rp.kids ∨ Loose σ p c
+
+theorem setChildren_pre' {σ σ' : Store α} {p : Nat} {cs : List Nat} (fuel : Nat) (hp : Pre Hc σ p)
+    (hd : OwnOrLoose σ p cs) (h : setChildren fuel σ p cs = .ok σ') : Inv Hc σ' := by
   obtain ⟨rp, hrp, hvp, hcs⟩ := hd
   refine (invalidate_inv fuel _ p σ' ?_ h).1
   exact pre_attach (ks := cs) (cs := cs) hp hrp hvp (fun c hc => hc) (fun k hk => by
     rcases hcs k hk with h | h
     · exact .inl h
     · exact .inr ⟨hk, h⟩)
+
+theorem setChildren_pre {σ σ' : Store α} {p : Nat} {cs : List Nat} (fuel : Nat) (hp : Pre Hc σ p)
+    (hd : OwnOrDetached σ p cs) (h : setChildren fuel σ p cs = .ok σ') : Inv Hc σ' := by
+  obtain ⟨rp, hrp, hvp, hcs⟩ := hd
+  exact setChildren_pre' fuel hp ⟨rp, hrp, hvp, fun c hc => (hcs c hc).imp id (Detached.loose hp.par)⟩ h
 
 theorem setChildren_inv {σ σ' : Store α} {p : Nat} {cs : List Nat} (fuel : Nat) (hI : Inv Hc σ)
     (hd : OwnOrDetached σ p cs) (h : setChildren fuel σ p cs = .ok σ') : Inv Hc σ' :=
@@ -134,6 +143,6 @@ theorem addChild_inv {σ σ' : Store α} {p c : Nat} {rp : NodeRec α} (fuel : N
   exact pre_attach (hI.pre p) hrp hvp (fun x hx => by simp at hx; simp [hx]) (fun k hk => by
     rcases List.mem_append.mp hk with h | h
     · exact .inl h
-    · simp at h; subst h; exact .inr ⟨by simp, hd⟩)
+    · simp at h; subst h; exact .inr ⟨by simp, hd.loose hI.par⟩)
 
 end FV
